@@ -10,7 +10,7 @@ from vlib.core import cz, cq, cn, cbool, clist, copt, cstr
 PID = 'C07'
 PROPERTY_FILE = 'Properties/C07.v'
 # generated model parts (translate/) this property's model / proofs really depend on
-GEN_DEPS = []
+GEN_DEPS = ['TermOpsImpl']
 MODEL_TARGETS = ['Corr/TermCorr.vo']
 PROOF_TARGETS = ['Proofs/C07Proofs.vo']
 COQ_HEADER = ("From QV Require Import Model.Num Model.Dim Model.Term Corr.Common "
